@@ -80,7 +80,7 @@ def _std_summary(callee, t, args_iv, get_cell):
 
 
 class Intervals:
-    def __init__(self, body, summaries=None, depth=0, arg_intervals=None, sub_analyses=None, variant_sets=False, through_refs=False):
+    def __init__(self, body, summaries=None, depth=0, arg_intervals=None, sub_analyses=None, variant_sets=False, through_refs=False, ret_assume=None, thresholds=None):
         """variant_sets: track for every enum-valued cell the *set* of variants it may hold instead of
         'one known variant or nothing':
           * sets are joined by union (an `Ok(None)` / `Err(e)` / `Ok(Some(p))` merge in any arrival
@@ -96,6 +96,13 @@ class Intervals:
         # that is never borrowed mutably denotes `x.g.f` (an inlined `&self` helper reading the struct
         # its caller has just built).  Off by default; inherited by the analyses of callees.
         self.through_refs = through_refs
+        # ret_assume: {callee: (lo, hi)} - the result of a call to that (recursive) function is taken to
+        # lie in the interval instead of being analysed: the induction hypothesis of a caller that
+        # discharges the matching obligation on the callee's return blocks itself.  Inherited by callees.
+        self.ret_assume = ret_assume or {}
+        # thresholds: widening at a loop head jumps to the nearest of these values before giving up to
+        # infinity (finite set: termination is kept).  Empty by default = plain widening.
+        self.thresholds = sorted(set(thresholds or ()))
         self.b = body
         self.facts = body.facts
         self.depth = depth
@@ -486,6 +493,9 @@ class Intervals:
                     self._map_variant(st, src, dcell, {"Ok": "Some", "Err": "None"})
                     self._copy_variants(st, (src[0], src[1] + ("@Ok", 0)), (dcell[0], dcell[1] + ("@Some", 0)))
             return
+        if target in self.ret_assume:
+            st["iv"][dcell] = self.ret_assume[target]
+            return
         if self.facts.has_body(target):
             r = self.local_summary(target, [self._arg_cells(st, a) for a in t["args"]])
             if r:
@@ -548,7 +558,7 @@ class Intervals:
         for i, a in enumerate(args or []):
             for path, v in a.items():
                 ai[(i + 1, path)] = v
-        sub = Intervals(cb, self.summaries, self.depth + 1, ai, self.sub_analyses, variant_sets=self.variant_sets, through_refs=self.through_refs)
+        sub = Intervals(cb, self.summaries, self.depth + 1, ai, self.sub_analyses, variant_sets=self.variant_sets, through_refs=self.through_refs, ret_assume=self.ret_assume, thresholds=self.thresholds)
         self.sub_analyses[key] = sub
         r = None
         for rb in cb.return_blocks():
@@ -763,8 +773,8 @@ class Intervals:
                 continue
             h = hull(v, w)
             if widen is not None and c[0] in widen:
-                lo = v[0] if w[0] >= v[0] else -INF
-                hi = v[1] if w[1] <= v[1] else INF
+                lo = v[0] if w[0] >= v[0] else max([x for x in self.thresholds if x <= w[0]], default=-INF)
+                hi = v[1] if w[1] <= v[1] else min([x for x in self.thresholds if x >= w[1]], default=INF)
                 h = (lo, hi)
             iv[c] = h
         eq = {k: v for k, v in a["eq"].items() if b["eq"].get(k) == v}
